@@ -947,7 +947,8 @@ func builtinPositive(_ *lisp.LEnv, _ *lisp.LVal) *lisp.LVal {
 		if !ok {
 			return lisp.ErrorConditionf(FailedConstraint, "Value cannot be compared")
 		}
-		if compareTo <= 0 {
+		// Written so that NaN, which is neither <= 0 nor > 0, is refused.
+		if !(compareTo > 0) {
 			return lisp.ErrorConditionf(FailedConstraint, "Supplied value was not positive")
 		}
 		return lisp.Nil()
@@ -962,7 +963,7 @@ func builtinNegative(_ *lisp.LEnv, _ *lisp.LVal) *lisp.LVal {
 		if !ok {
 			return lisp.ErrorConditionf(FailedConstraint, "Value cannot be compared")
 		}
-		if compareTo >= 0 {
+		if !(compareTo < 0) {
 			return lisp.ErrorConditionf(FailedConstraint, "Supplied value was not negative")
 		}
 		return lisp.Nil()
